@@ -4,6 +4,7 @@ import (
 	"bytes"
 	"encoding/binary"
 	"encoding/json"
+	"errors"
 	"fmt"
 	"io"
 	"log"
@@ -15,6 +16,10 @@ import (
 	"github.com/rqlite/rqlite/v10/snapshot/proto"
 	pb "google.golang.org/protobuf/proto"
 )
+
+// ErrFullNeeded is returned when an incremental snapshot is offered while the
+// store requires a full snapshot.
+var ErrFullNeeded = errors.New("full snapshot needed before incremental can be applied")
 
 type sinker interface {
 	Open() error
@@ -138,7 +143,7 @@ func (s *Sink) Write(p []byte) (n int, err error) {
 					return n, err
 				}
 				if dueNext == Full {
-					return n, fmt.Errorf("full snapshot needed before incremental can be applied")
+					return n, ErrFullNeeded
 				}
 			}
 			// No data follows this header type. Any leftover bytes are an error.
@@ -206,7 +211,7 @@ func (s *Sink) Close() (retErr error) {
 	defer func() {
 		if retErr != nil {
 			stats.Add(sinkErrors, 1)
-			if s.localWALDir != "" && s.fatalFn != nil {
+			if s.localWALDir != "" && s.fatalFn != nil && !errors.Is(retErr, ErrFullNeeded) {
 				s.fatalFn(retErr)
 			}
 		} else if s.localWALDir != "" {
@@ -217,6 +222,22 @@ func (s *Sink) Close() (retErr error) {
 	}()
 
 	if s.localWALDir != "" {
+		// A full snapshot may have become required since the header was
+		// accepted (e.g. a database load was applied while this snapshot
+		// was being persisted). Installing the incremental now would put it
+		// on top of a base it no longer belongs to, so check again. Nothing
+		// has been moved yet, so this is an ordinary failure, not a fatal one.
+		if s.stc != nil {
+			dueNext, err := s.stc.DueNext()
+			if err != nil {
+				return err
+			}
+			if dueNext == Full {
+				os.RemoveAll(s.snapTmpDirPath)
+				return ErrFullNeeded
+			}
+		}
+
 		// IncrementalFileSnapshot: atomically move the WAL directory into the
 		// snapshot directory, then redistribute the WAL files.
 		movedDir := filepath.Join(s.snapTmpDirPath, "wal-incoming")
@@ -247,7 +268,8 @@ func (s *Sink) Close() (retErr error) {
 		return fmt.Errorf("failed to rename snapshot directory: %v", err)
 	}
 
-	if s.stc != nil {
+	// Only a full snapshot satisfies a "full snapshot needed" request.
+	if s.stc != nil && s.localWALDir == "" {
 		if err := s.stc.SetDueNext(Incremental); err != nil {
 			return fmt.Errorf("failed to set due next to incremental: %v", err)
 		}
